@@ -94,11 +94,11 @@ theorem K4.piece (X : Polyhedron) (hH : X.ExactHyp) (f : Polygon) (hv : f.Valid)
       cases g with
       | point q => exact .point q
       | seg s => exact .seg s hw
-      | line _ => simp [Props.C04.resTyOf] at hty
-      | plane _ => simp [Props.C04.resTyOf] at hty
-      | halfline _ => simp [Props.C04.resTyOf] at hty
+      | line _ => simp [resTyOf] at hty
+      | plane _ => simp [resTyOf] at hty
+      | halfline _ => simp [resTyOf] at hty
     | polygon Q => exact .gon Q (interPolygonPolyhedron_polygon_valid X hH f hv Q ho)
-    | polyhedron _ => simp [Props.C04.resTyOf] at hty
+    | polyhedron _ => simp [resTyOf] at hty
 
 /-! ### the dedup insertions -/
 section dedup
